@@ -18,19 +18,19 @@ META = {
              "configurations (in-memory list with/without n_cat, file+store=True, file+store=False) x filters on/off x spatial filter on/off, "
              "small forecasts of 3..6 catalogs incl. empty ones and (when filters are on) events the filters remove. After every operation the "
              "observable answer is compared with a sequential reference model (the filtered catalog list M) or, for evaluations, with the same "
-             "call on a fresh forecast built from the same source. Exhaustive: all histories of length <= 2 (quick) / <= 3 plus length 4 over "
+             "call on the equivalent plain forecast (in-memory catalogs pre-filtered by the harness, nothing configured). Exhaustive: all histories of length <= 2 (quick) / <= 3 plus length 4 over "
              "{ITER,COUNTS,RATES,N,S,M} (thorough) on every configuration; random histories up to length 12. Non-trivial: history has >= 2 "
              "operations; distinct = (configuration, forecast, history)."),
     "assumptions": ["reference list M computed by the harness (magnitude threshold + C01-style inside test on interior points)",
                     "evaluation correctness itself is C10's business: here only history independence"],
     "deciding": ["history:pass-stream", "history:counts", "history:rates", "history:evaluation-independence", "invariant:quiescent-state"],
-    "exhaustive_tiers": {"quick": {"histories of length <= 2 over 11 operations x 13 configurations": True},
-                         "thorough": {"histories of length <= 3 over 11 ops + length 4 over 6 state-touching ops x 13 configurations": True}},
+    "exhaustive_tiers": {"quick": {"histories of length <= 2 over 12 operations x 13 configurations": True},
+                         "thorough": {"histories of length <= 3 over 12 ops + length 4 over 6 state-touching ops x 13 configurations": True}},
 }
-META["added"] = "Added: in-memory forecasts without n_cat (13 configurations), spatial_counts(cartesian=True) as a twelfth operation, empty-first catalog layouts. in-memory catalogs that only declare the forecast's filter statements."
+META["added"] = "Added: in-memory forecasts without n_cat (13 configurations), spatial_counts(cartesian=True) as a twelfth operation, empty-first catalog layouts. in-memory catalogs that only declare the forecast's filter statements. region-less in-memory catalogs, reference = equivalent pre-filtered plain forecast."
 MANIFEST = {
-    "technique": "sequential history log on a live CatalogForecast checked op-by-op against a reference model (filtered catalog list) and, for evaluations, against a fresh forecast; quiescent-state invariant after each complete operation; exhaustive short histories + random long ones",
-    "level_text": "All operation histories up to length 2 (quick) / 3-4 (thorough) over the 11 public operations are enumerated on 13 source/filter configurations; each step's observable result (pass stream, event counts, n_cat, expected rates, marginals, the six evaluations) must equal the single-pass reference regardless of what was called before, and the iterator must be back in its initial state after every complete operation.",
+    "technique": "sequential history log on a live CatalogForecast checked op-by-op against a reference model (filtered catalog list) and, for evaluations, against the equivalent pre-filtered plain forecast; quiescent-state invariant after each complete operation; exhaustive short histories + random long ones",
+    "level_text": "All operation histories up to length 2 (quick) / 3-4 (thorough) over the 12 public operations are enumerated on 13 source/filter configurations; each step's observable result (pass stream, event counts, n_cat, expected rates, marginals, the six evaluations) must equal the single-pass reference regardless of what was called before, and the iterator must be back in its initial state after every complete operation.",
     "level_note": "Trusted: harness reference of the filtered catalog list; fresh-forecast comparison for evaluations. Aborted passes are outside the quantifier.",
 }
 WATCHDOG_S = {"quick": 1200, "thorough": 7200}
@@ -118,12 +118,14 @@ def build(fc, cfg, tmpdir):
           "filters": ["magnitude >= %r" % MIN_MAG] if cfg["filters"] else [], "name": "cf"}
     if cfg["source"].startswith("memory"):
         cats = []
+        # every other forecast: the in-memory catalogs carry no region of their own (the forecast's region is bound to them when they are gridded)
+        creg = reg if len(fc["cats"]) % 2 else None
         for i, evs in enumerate(fc["cats"]):
             if kw["filters"] and i % 3 == 1:
                 # the catalog only DECLARES the forecast's filter statements (constructor argument); nothing has been applied to it
-                c = CSEPCatalog(data=list(evs), catalog_id=i, region=reg, filters=list(kw["filters"]))
+                c = CSEPCatalog(data=list(evs), catalog_id=i, region=creg, filters=list(kw["filters"]))
             else:
-                c = CSEPCatalog(data=list(evs), catalog_id=i, region=reg)
+                c = CSEPCatalog(data=list(evs), catalog_id=i, region=creg)
                 if kw["filters"] and i % 3 == 2:
                     # history: the user looked at a filtered copy before (in_place=False leaves this catalog itself unfiltered)
                     c.filter(list(kw["filters"]), in_place=False)
@@ -136,6 +138,21 @@ def build(fc, cfg, tmpdir):
         if not os.path.exists(path):
             c12.write_file(path, [[tuple(e) for e in evs] for evs in fc["cats"]], [True] * len(fc["cats"]), True, "frac")
         f = csep.load_catalog_forecast(path, store=(cfg["source"] == "file_store"), **kw)
+    obs = CSEPCatalog(data=list(fc["obs"]), region=reg, name="obs")
+    return f, obs, reg
+
+
+def build_plain(fc, cfg):
+    """The equivalent plain forecast: in-memory catalogs that already hold exactly the events of the reference pass M (filters applied once by the
+    harness), bound to the region, nothing left for the forecast to filter. Evaluating the configured forecast must give what evaluating this gives."""
+    from csep.core.catalogs import CSEPCatalog
+    from csep.core.forecasts import CatalogForecast
+    nx, ny, dh, ax, ay = fc["grid"]
+    mags = fixtures.mag_bins("4.95", "0.1", 4)
+    reg = fixtures.region(nx, ny, dh, ax, ay, magnitudes=mags)
+    M = reference(fc, cfg)
+    cats = [CSEPCatalog(data=list(evs), catalog_id=i, region=reg) for i, evs in enumerate(M)]
+    f = CatalogForecast(catalogs=cats, region=reg, n_cat=len(cats), name="cf")
     obs = CSEPCatalog(data=list(fc["obs"]), region=reg, name="obs")
     return f, obs, reg
 
@@ -220,12 +237,12 @@ def _run_history(ctx, fc, cfg, ops, tmp, cache):
         ok, val, tb = do_op(ctx, op, f, obs)
         if not ok:
             if op in ("N", "S", "M", "PL", "RM", "MLL"):
-                # an evaluation that is undefined for this forecast (e.g. every synthetic catalog empty) raises on a fresh forecast too:
+                # an evaluation that is undefined for this forecast (e.g. every synthetic catalog empty) raises on the equivalent plain forecast too:
                 # that is C10's business; here only a failure that depends on the history counts
-                okf, fresh, tbf = ctx.call(build, fc, cfg, tmp)
+                okf, fresh, tbf = ctx.call(build_plain, fc, cfg)
                 okr, ref, tbr = do_op(ctx, op, fresh[0], fresh[1]) if okf else (True, None, None)
                 if not okr and type(ref) is type(val):
-                    ctx.add("evaluation_raises_on_fresh_forecast_too")
+                    ctx.add("evaluation_raises_on_equivalent_plain_forecast_too")
                     return
             ctx.violate("operation raised", rc, observed=repr(val), tb=tb, tags=dict(tags, clause="raised", exc=type(val).__name__))
             return
@@ -264,7 +281,8 @@ def _run_history(ctx, fc, cfg, ops, tmp, cache):
             ctx.mon("history:evaluation-independence", 1)
             key = (digest(fc), cfg["source"], cfg["filters"], cfg["spatial"], op)
             if key not in cache:
-                okf, fresh, tbf = ctx.call(build, fc, cfg, tmp)
+                # reference: the same evaluation on the equivalent plain forecast (pre-filtered in-memory catalogs, nothing configured)
+                okf, fresh, tbf = ctx.call(build_plain, fc, cfg)
                 okr, ref, tbr = do_op(ctx, op, fresh[0], fresh[1]) if okf else (False, None, None)
                 cache[key] = (okr, ref)
             okr, ref = cache[key]
